@@ -4,6 +4,7 @@ import json, glob, os, re
 ROUND_NOTE = {1: '', 2: '; round 2 asked for changes that need a long or specially shaped history (hidden state, repetition counts)',
  3: '; round 3 asked for changes that are as subtle as possible (fewest affected inputs, unusual code paths)',
  4: '; round 4 was ADVERSARIAL: the agent was additionally given a generic description of the technique class (state exploration with caps, pumping, repeat-then-perturb, random sequences of a few hundred ops, minutes of fuzzing) and asked to design changes that escape it',
+ 9: '; round 9: as round 8 (three changes, unusual locations) for the other ten properties',
  8: '; round 8 (property text only) asked for THREE changes per property, at most one in the most obvious function and the others where a reviewer would not look first (shared helper, other pipeline stage, wrapper, constructor, rarely used entry point)',
  7: '; round 7 completed the plain re-measurement for the remaining properties (property text only)',
  6: '; round 6 (after the second false-alarm audit had loosened several checks) was a plain round again: property text only',
